@@ -474,9 +474,10 @@ macro_rules! core_ops6_impl {
                 use poulpy_bin_fhe::bdd_arithmetic::{ExecuteBDDCircuit1WTo1W, Identity};
                 use poulpy_core::layouts::GLWEToRef;
                 let multi = op.ends_with("_multi_thread");
-                let declared = NO_QUERY;
                 if op.starts_with("word_identity") {
                     let threads = draw::threads(sh.seed >> 20, 32);
+                    // no query: a fixed generous window per thread (the entry point asserts threads x its per-thread need)
+                    let declared = if multi { NO_QUERY * threads.max(1) } else { NO_QUERY };
                     // encrypted 32-bit words need N >= 32
                     let n = if sh.n >= 64 { 64 } else { 32 };
                     let c = ctx(n, 1);
@@ -507,6 +508,7 @@ macro_rules! core_ops6_impl {
                 let res_infos = gl(sh.n, 13, k, 1);
                 let outputs = 1 + (sh.seed >> 8) as usize % 8;
                 let threads = draw::threads(sh.seed >> 20, outputs);
+                let declared = if multi { NO_QUERY * threads.max(1) } else { NO_QUERY };
                 let circuit = SimCircuit::generate(sh.seed, outputs, 8);
                 let mut out: FheUint<Vec<u8>, u8> = FheUint::alloc_from_infos(&res_infos);
                 let r = if multi {
